@@ -2,6 +2,7 @@ package main
 
 import (
 	"fmt"
+	"os"
 	"go/token"
 	"go/types"
 	"sort"
@@ -169,6 +170,11 @@ func (ex *Exec) stepGuard(st *State) (ended bool) {
 				ended = true
 				ex.res.Paths-- // the forked children continue this path
 				ex.res.Steps -= st.steps
+			case needForkCases:
+				ex.forkOnCases(st, e.cases)
+				ended = true
+				ex.res.Paths--
+				ex.res.Steps -= st.steps
 			case engineErr:
 				fr := st.frames[len(st.frames)-1]
 				pos := ""
@@ -217,6 +223,74 @@ func (ex *Exec) forkOnValues(st *State, t *Term) {
 		n.binds[t] = v
 		ex.work = append(ex.work, n)
 	}
+}
+
+func (ex *Exec) forkOnCases(st *State, cases []forkCase) {
+	var feas []forkCase
+	for _, cs := range cases {
+		if ex.feasible(st, cs.cond) {
+			feas = append(feas, cs)
+		}
+	}
+	for i, cs := range feas {
+		n := st
+		if i < len(feas)-1 {
+			n = st.fork()
+		}
+		n.pc = append(n.pc, cs.cond)
+		if cs.bindT != nil {
+			n.binds[cs.bindT] = cs.bindV
+		}
+		if len(cs.falses)+len(cs.trues) > 0 {
+			if n.facts == nil {
+				n.facts = map[*Term]bool{}
+			}
+			for _, f := range cs.falses {
+				n.facts[f] = false
+			}
+			for _, f := range cs.trues {
+				n.facts[f] = true
+			}
+		}
+		ex.work = append(ex.work, n)
+	}
+}
+
+func (ex *Exec) factSimp(st *State, t *Term) *Term {
+	if v, ok := st.facts[t]; ok {
+		return ex.ctx.Bool(v)
+	}
+	return t
+}
+
+// keyCases builds the case split "key equals entry i" / "key equals no entry" for a symbolic scalar key.
+func (ex *Exec) keyCases(st *State, mo *MapObj, key *Term) []forkCase {
+	c := ex.ctx
+	var cases []forkCase
+	none := c.True
+	var eqs []*Term
+	for i := range mo.Keys {
+		if mo.Present[i].IsFalse() {
+			continue
+		}
+		eq := ex.factSimp(st, ex.eqValue(key, mo.Keys[i]))
+		if eq.IsFalse() {
+			continue
+		}
+		cs := forkCase{cond: c.And(mo.Present[i], eq)}
+		if kt, ok := mo.Keys[i].(*Term); ok && kt.IsConst() && mo.Present[i].IsTrue() {
+			cs.bindT, cs.bindV = key, kt.Val
+		} else if mo.Present[i].IsTrue() && !eq.IsConst() {
+			cs.trues = []*Term{eq}
+		}
+		cases = append(cases, cs)
+		none = c.And(none, c.Not(c.And(mo.Present[i], eq)))
+		if mo.Present[i].IsTrue() {
+			eqs = append(eqs, eq)
+		}
+	}
+	cases = append(cases, forkCase{cond: none, falses: eqs})
+	return cases
 }
 
 // concretize returns the concrete value of a scalar term, forking if needed.
@@ -429,6 +503,9 @@ func (ex *Exec) oblige(st *State, cond *Term, kind, label, knownID string) {
 		}
 		ex.record(st, k, label, knownID, vals)
 	default:
+		if os.Getenv("GOSMT_SHOWOBL") != "" {
+			fmt.Fprintf(os.Stderr, "UNKNOWN OBLIGATION %q: %s\n", label, Inline(cond, 12))
+		}
 		ex.res.Inconclusive = append(ex.res.Inconclusive, fmt.Sprintf("solver %s on %s %q at %s", res, kind, label, ex.posOf(st)))
 	}
 	if cond.IsFalse() || !ex.feasible(st, cond) {
@@ -661,19 +738,18 @@ func (ex *Exec) mapLookup(st *State, m MapV, key Value, zero Value) (Value, *Ter
 	var res Value = zero
 	found := c.False
 	for i := len(mo.Keys) - 1; i >= 0; i-- {
-		hit := c.And(mo.Present[i], ex.eqValue(key, mo.Keys[i]))
+		hit := c.And(mo.Present[i], ex.factSimp(st, ex.eqValue(key, mo.Keys[i])))
 		if hit.IsFalse() {
 			continue
 		}
 		if hit.IsTrue() {
-			res = mo.Vals[i]
-			found = c.True
-			continue
+			// at most one present entry equals the key (invariant of mapUpdate)
+			return mo.Vals[i], c.True
 		}
 		r, ok := ex.iteValue(hit, mo.Vals[i], res)
 		if !ok {
 			if kt, isT := key.(*Term); isT {
-				panic(needFork{kt})
+				panic(needForkCases{ex.keyCases(st, mo, kt)})
 			}
 			throwf("map lookup with symbolic non-scalar key and non-mergeable values")
 		}
@@ -695,7 +771,7 @@ func (ex *Exec) mapUpdate(st *State, m MapV, key, val Value) {
 	n := &MapObj{Keys: append([]Value(nil), mo.Keys...), Vals: append([]Value(nil), mo.Vals...), Present: append([]*Term(nil), mo.Present...)}
 	none := c.True
 	for i := range n.Keys {
-		hit := c.And(n.Present[i], ex.eqValue(key, n.Keys[i]))
+		hit := c.And(n.Present[i], ex.factSimp(st, ex.eqValue(key, n.Keys[i])))
 		if hit.IsFalse() {
 			continue
 		}
@@ -707,7 +783,7 @@ func (ex *Exec) mapUpdate(st *State, m MapV, key, val Value) {
 		r, ok := ex.iteValue(hit, val, n.Vals[i])
 		if !ok {
 			if kt, isT := key.(*Term); isT {
-				panic(needFork{kt})
+				panic(needForkCases{ex.keyCases(st, mo, kt)})
 			}
 			throwf("map update with symbolic key and non-mergeable values")
 		}
